@@ -126,6 +126,24 @@ def _apply_model(m, op, files, new_content):
         return None
 
 
+def _inner(env, fl, pth):
+    """plain-Python copy of the extra bin column and of the attributes on inner objects; no HDF5 object survives the call
+    (an object reached through an external link keeps the linked file open for as long as it lives)"""
+    import gc
+    fh = env.h5.File(fl, "r")
+    try:
+        g = fh[pth]
+        has = "weight" in g["bins"]
+        wv = [float(x) for x in g["bins/weight"][:]] if has else None
+        at = {k: (v.item() if hasattr(v, "item") else v) for k, v in g["bins/weight"].attrs.items()} if has else {}
+        ptag = g["pixels"].attrs.get("tag")
+        del g
+    finally:
+        fh.close()
+        gc.collect()
+    return has, wv, at, ptag
+
+
 def history_body(env, p):
     env.reset()
     co = env.cooler
@@ -147,6 +165,17 @@ def history_body(env, p):
     if p["second_file"]:
         env.build_cooler(files[1], bins, *contents["C"][:2], {"count": contents["C"][2]}, group="/", mode="w")
         m.files[files[1]] = {"/": ("node", m.new_node("C"))}
+    # the initial collections are balanced ones: an extra bin column that carries its own attributes (what balance_cooler(store=True)
+    # leaves), and an attribute on the pixel group - "reads identically" includes these
+    weights = {"A": [0.5, 2.0], "B": [1.5, 0.25], "C": [4.0, 0.125]}
+    for fl, grp, tag in [(files[0], "/x", "A"), (files[0], "/d/y", "B")] + ([(files[1], "/", "C")] if p["second_file"] else []):
+        f = env.h5.File(fl, "r+")
+        g = f[grp]
+        d = g["bins"].create_dataset("weight", data=np.array(weights[tag]))
+        d.attrs["scale"] = weights[tag][0]
+        d.attrs["converged"] = True
+        g["pixels"].attrs["tag"] = tag
+        f.close()
     fresh = iter(pool)
     trace = []
     for step in range(p["steps"]):
@@ -206,6 +235,14 @@ def history_body(env, p):
                 b1, b2, v = contents[m.resolve(fl, pth)]
                 env.check(and_(len(tab) == 1, vals(tab["bin1_id"])[0] == b1[0], vals(tab["bin2_id"])[0] == b2[0], vals(tab["count"])[0] == v[0]) if len(tab) == 1 else False,
                           f"{pth} does not read back as the content it should hold")
+                tag_ = m.resolve(fl, pth)
+                if tag_ in weights:
+                    has, wv, at, ptag = _inner(env, fl, pth)
+                    ok = has and wv == weights[tag_]
+                    env.check(ok, f"{pth}: the extra bin column of the source did not come along")
+                    if ok:
+                        env.check(at.get("scale") == weights[tag_][0] and bool(at.get("converged", False)) and ptag == tag_,
+                                  f"{pth}: attributes stored on the source's inner tables/columns are missing from the destination ({sorted(at)})")
             for probe in ("/nope", "/d", "/x/bins", "/zz/top"):
                 if probe in m.files[fl]:
                     continue
